@@ -1,5 +1,5 @@
-\* C06 quick (safety): 2 nodes, 2 ids, clock 0..1, no tombstone collection, 2 CAS, 1 fault (partition or restart);
-\* garbage packets, junk push/pull and blocking watchers are in MC_c06_2n.cfg (thorough) and in the replayed behaviours.
+\* C06 thorough (safety, 2 nodes, all fault kinds): 2 nodes, 2 ids, clock 0..1, no tombstone collection, 2 CAS, 1 fault (garbage
+\* packet, junk push/pull, partition, restart), blocking watcher on node 1.
 CONSTANTS
   N = 2
   NI = 2
@@ -10,11 +10,11 @@ CONSTANTS
   MaxFaults = 1
   LiveStates = {"ACTIVE"}
   WatchNodes = {1, 2}
-  HoldNodes = {}
+  HoldNodes = {1}
   AllowRestart = TRUE
-  AllowGarbage = FALSE
+  AllowGarbage = TRUE
   AllowPartition = TRUE
-  AllowJunkPP = FALSE
+  AllowJunkPP = TRUE
   ConsumeNet = FALSE
   Ideal = TRUE
   Ghost = TRUE
